@@ -144,8 +144,8 @@ Section Knot.
     exists sc setting,
       class_refine_failures c sc = [] /\
       o = PObject (cid c) setting (defaulted_names c setting) false /\
-      facts sp pok c sc setting /\
-      (forall st, facts sp pok c sc st -> good sp pok (cid c) (PObject (cid c) st (defaulted_names c st) false)).
+      facts vr sp pok c sc setting /\
+      (forall st, facts vr sp pok c sc st -> good sp pok (cid c) (PObject (cid c) st (defaulted_names c st) false)).
   Proof.
     intros IH Hfc Hwf Hkinds Hcons Hsc H.
     destruct (find_class_In _ _ _ Hfc) as [Hin _].
@@ -153,7 +153,7 @@ Section Knot.
     destruct (crf_parts _ _ Hcrf) as (Hhead & _ & Hslots & Hreq & Hcc).
     destruct (header_ok_parts _ _ Hhead) as [Hver Hfam].
     destruct (class_wf_parts _ Hwf) as (Hnames & Hcn & Hdc & Hdconst).
-    destruct (vr_flags vr Hvr) as (_ & _ & _ & _ & _ & Hpad & _).
+    destruct (vr_flags vr Hvr) as (_ & _ & _ & _ & _ & Hpad & _ & _).
     set (rc := fun k a i kw => run vr ev w pok sok f (RConstruct k a i kw None)) in *.
     set (rp := fun a i d => run vr ev w pok sok f (RParse a i None d)) in *.
     set (ro := fun vv refs a d => run vr ev w pok sok f (RParseObs (Some vv) refs a false d)) in *.
@@ -166,7 +166,7 @@ Section Knot.
       rewrite forallb_forall in Hkinds. eapply kind_sound; eauto. }
     assert (Hcon : forall fuel setting,
                Inv sp pok sc setting ->
-               constr_all (eval_constr pok fuel c setting)
+               constr_all (eval_constr vr pok fuel c setting)
                           ((match cfamily c with FExt => [CAtLeastOneDefault] | _ => [] end) ++ ccons c) = Ok tt ->
                exists n0, forallb (jconstr pok n0 sc (members c setting))
                                   ((match cfamily sc with FExt => [CAtLeastOneDefault] | _ => [] end) ++ ccons sc) = true).
@@ -177,7 +177,7 @@ Section Knot.
         - destruct (Hcc k' Hk'); auto. right. apply in_or_app. auto. }
       destruct Hlib as [-> | Hlib]; [reflexivity|].
       destruct HInv as [ND _].
-      eapply (constr_sound pok c sc Hfam) with (fuel := fuel); eauto.
+      eapply (constr_sound vr pok c sc Hfam) with (fuel := fuel); eauto.
       + intros s Hs. destruct (Hslots s Hs) as [s' [Hf _]]. eauto.
       + rewrite forallb_forall in Hcons. auto.
       + eapply constr_all_In; eauto. }
@@ -210,8 +210,8 @@ Section Knot.
       assert (Hgen : exists sc setting,
                  class_refine_failures c sc = [] /\
                  a = PObject (cid c) setting (defaulted_names c setting) false /\
-                 facts sp pok c sc setting /\
-                 (forall st, facts sp pok c sc st -> good sp pok (cid c) (PObject (cid c) st (defaulted_names c st) false))).
+                 facts vr sp pok c sc setting /\
+                 (forall st, facts vr sp pok c sc st -> good sp pok (cid c) (PObject (cid c) st (defaulted_names c st) false))).
       { destruct (cinit c) eqn:Ei; simpl in Pinit; try discriminate.
         - eapply generic_ok; eauto.
         - eapply generic_ok; [eauto|eauto|eauto|eauto|eauto| |exact Ha]. apply dict_scope_filter. auto.
@@ -242,7 +242,7 @@ Section Knot.
       destruct vv'; try discriminate.
       assert (Hamem : amem (u "id") setting = true).
       { destruct F as (_ & _ & Hdef & _). rewrite <- Hnid. apply Hdef; auto. unfold default_present. rewrite Edid. auto. }
-      assert (Fid : facts sp pok c sc (aset (u "id") (PJ (JStr (t ++ u "--" ++ e_uuid5 ev))) setting)).
+      assert (Fid : facts vr sp pok c sc (aset (u "id") (PJ (JStr (t ++ u "--" ++ e_uuid5 ev))) setting)).
       { apply facts_aset; auto.
         - split; [exact I|]. exists s'. split; auto. exists 1%nat. rewrite Ek'. simpl.
           unfold valid_id.
